@@ -7,6 +7,8 @@
 #include "../VectorTools.h"
 #include "FullHmmTransitionMatrix.h"
 
+#include <cmath>
+
 using namespace bpp;
 using namespace std;
 
@@ -87,11 +89,60 @@ const std::vector<double>& FullHmmTransitionMatrix::getEquilibriumFrequencies() 
   {
     getPij();
 
-    MatrixTools::pow(pij_, 256, tmpmat_);
+    // The matrix is squared (P, P^2, P^4, ...) until all its rows agree: each of them is then the stationary
+    // distribution. (A fixed power is not enough for a slowly mixing chain.) The rows are renormalised after
+    // each squaring, so that the rounding errors of their sums are not doubled by the next one.
+    std::vector<std::vector<double>> cur(salph, std::vector<double>(salph)), nxt(salph, std::vector<double>(salph));
+    for (size_t i = 0; i < salph; ++i)
+    {
+      for (size_t j = 0; j < salph; ++j)
+      {
+        cur[i][j] = pij_(i, j);
+      }
+    }
+    for (size_t iter = 0; iter < 64; ++iter)
+    {
+      double spread = 0;
+      for (size_t i = 0; i < salph; ++i)
+      {
+        for (size_t j = 0; j < salph; ++j)
+        {
+          double d = std::abs(cur[i][j] - cur[0][j]);
+          if (d > spread)
+            spread = d;
+        }
+      }
+      if (spread <= 1e-14)
+        break;
+      for (size_t i = 0; i < salph; ++i)
+      {
+        for (size_t j = 0; j < salph; ++j)
+        {
+          double x = 0;
+          for (size_t k = 0; k < salph; ++k)
+          {
+            x += cur[i][k] * cur[k][j];
+          }
+          nxt[i][j] = x;
+        }
+      }
+      for (size_t i = 0; i < salph; ++i)
+      {
+        double sum = 0;
+        for (size_t j = 0; j < salph; ++j)
+        {
+          sum += nxt[i][j];
+        }
+        for (size_t j = 0; j < salph; ++j)
+        {
+          cur[i][j] = nxt[i][j] / sum;
+        }
+      }
+    }
 
     for (size_t i = 0; i < salph; ++i)
     {
-      eqFreq_[i] = tmpmat_(0, i);
+      eqFreq_[i] = cur[0][i];
     }
 
     eqFreqUpToDate_ = true;
